@@ -94,6 +94,14 @@ func (in *inst) mkcb(id int) func(k string, v interface{}) {
 			in.c.Count()
 		}
 	}
+	if id == 6 {
+		// "refresh on eviction": the callback stores the evicted key again (a fresh value, no TTL)
+		return func(k string, v interface{}) {
+			vshim.Park("cb")
+			in.cbs = append(in.cbs, fmt.Sprintf("%d:%s:%s", id, k, val(v)))
+			in.c.Set(k, val(v)+".r", cache.NoExpiration)
+		}
+	}
 	if id == 8 {
 		// a callback that starts another cleanup pass from inside a pass (C06 lets the callback call back into
 		// the cache): it plants two entries that expire at once, lets the clock pass them, and sweeps
